@@ -152,3 +152,15 @@ package dispatcher
 //@   ensures[C12] err == nil && wf && ks != kd ==> amtIn(d, ks) == old(amtIn(d, ks)) + A && amtOut(d, ks) == old(amtOut(d, ks)) &&
 //@                                          amtIn(d, kd) == old(amtIn(d, kd)) && amtOut(d, kd) == old(amtOut(d, kd)) + B
 //@   ensures[C12] err == nil && wf ==> forall j T_cosmossdk_io_collections_Quad_int32_string_string_string_ :: j != ks && j != kd ==> amtIn(d, j) == old(amtIn(d, j)) && amtOut(d, j) == old(amtOut(d, j))
+
+// ---------------------------------------------------------------------------------------------
+// Genesis (C17): a valid dispatcher genesis initialises without error (A-COLL-OK: a write to the
+// statistics maps does not fail) and without dereferencing a missing identifier.
+// ---------------------------------------------------------------------------------------------
+//@ func (d *Dispatcher) InitGenesis(ctx, g) (err)
+//@   requires[inv] d != nil
+//@   modifies amt_has, amt_val, cnt_has, cnt_val
+//@   requires[C17] dispGenesisOK(g)
+//@   loop 0 invariant[C17] amtEntriesOK(g) && cntEntriesOK(g)
+//@   loop 1 invariant[C17] cntEntriesOK(g)
+//@   ensures[C17] err == nil
